@@ -39,7 +39,7 @@ CONSTANTS NT,          \* number of templates built before the page (they may ca
           FuelP,       \* leaves available for the page
           MaxDepth,    \* nesting depth bound for one body
           Ops,         \* constructors (parameter default, call, #if, #ifeq, #switch) available for one body
-          WordSet,     \* "full" | "small" | "num"
+          WordSet,     \* "full" | "small" | "num" | "tiny"
           Preset,      \* "none" | "echo": template 1 is the fixed parameter-echoing template (BFS mode)
           AllowDup,    \* TRUE: a call may bind the same parameter twice (MediaWiki: the last binding wins)
           AllowNumDup, \* TRUE: a switch may have constant keys that are numerically equal but spelled differently
@@ -223,8 +223,9 @@ C(s) == s    \* readability: a character sequence
 WordsFull  == {<<>>, <<"a">>, <<"b">>, <<"1">>, <<"0", "1">>, <<"1", ".", "0">>, <<"+", "1">>, <<"2">>, <<SP>>, <<NL>>}
 WordsSmall == {<<>>, <<"a">>, <<"1">>, <<"0", "1">>, <<SP>>}
 WordsNum   == {<<>>, <<"a">>, <<"1">>, <<"0", "1">>, <<"1", ".", "0">>, <<"+", "1">>, <<"2">>, <<"2", ".", "0">>, <<".", "5">>, <<"0", ".", "5", "0">>, <<SP>>}
-Words == CASE WordSet = "full" -> WordsFull [] WordSet = "small" -> WordsSmall [] OTHER -> WordsNum
-Names == IF WordSet = "small" THEN {<<"1">>, <<"x">>} ELSE {<<"1">>, <<"2">>, <<"x">>}
+WordsTiny  == {<<"a">>, <<"1">>, <<"0", "1">>}
+Words == CASE WordSet = "full" -> WordsFull [] WordSet = "small" -> WordsSmall [] WordSet = "tiny" -> WordsTiny [] OTHER -> WordsNum
+Names == CASE WordSet = "small" -> {<<"1">>, <<"x">>} [] WordSet = "tiny" -> {} [] OTHER -> {<<"1">>, <<"2">>, <<"x">>}
 Leaves == {Text(w) : w \in Words} \cup {Param(n) : n \in Names} \cup {Text(DefaultKey)}
 
 Item(b, d)       == [b |-> b, d |-> d, tag |-> "", x |-> <<>>]
@@ -321,16 +322,16 @@ MkSwitch == /\ ~Done /\ ops > 0 /\ ops' = ops - 1
                  /\ feat' = IF NumDupKeys(CasesAt(i + 1, k)) THEN feat \cup {"numdupkeys"} ELSE feat
             /\ UNCHANGED <<univ, fuel>>
 
+\* a template that does not exist (T0) can only be called while no template exists yet
+Callable == IF univ = <<>> THEN (IF NT = 0 THEN {} ELSE {0}) ELSE 1..Len(univ)
 \* a named argument is a tagged body; untagged bodies are positional arguments
-TagArg == /\ ~Done /\ CanBuild
+TagArg == /\ ~Done /\ CanBuild /\ Callable # {}
           /\ \E i \in Positions(1), n \in Names :
                /\ Plain(i, 1) /\ NoDefaultKey(i, 1) /\ ~FollowedByCase(i, 1)
                /\ stack' = Replace(i, 1, ArgItem(stack[i].b, stack[i].d, n))
           /\ UNCHANGED <<univ, fuel, ops, feat>>
 
 ArgsAt(i, k) == [j \in 1..k |-> [name |-> stack[i + j - 1].x, val |-> stack[i + j - 1].b]]
-\* a template that does not exist (T0) can only be called while no template exists yet
-Callable == IF univ = <<>> THEN {0} ELSE 1..Len(univ)
 MkCall == /\ ~Done /\ ops > 0 /\ ops' = ops - 1
           /\ \E k \in 0..3 : \E t \in Callable :
                IF k = 0
